@@ -540,6 +540,10 @@ def _export_family(plain, d, cls, sym, p, roles):
             if c.startswith("renamed") and c.endswith(":directory") and o and any(q.startswith(o + "/") for q in d.old_at) \
                     and not any(q.startswith(o + "/") for q in srcs):
                 return "plain:directory-rename-not-emitted"
+    # an entry that is renamed and changes kind: the exporter emits the rename (or, plain format and new kind directory, nothing)
+    # and never removes the old object
+    if any(d.cls.get(fid, "").startswith("renamed+kind_changed") for fid in chain[:1]):
+        return "renamed+kind_changed:old-object-not-removed"
     # a path that is vacated and taken again inside the commit (swap, chain, replacement) - by the entry or by one of its directories
     if any(d.flags.get(fid, set()) & {"path-reused", "old-path-reused"} for fid in chain):
         return "path-reused-within-one-commit:commands-in-wrong-order"
@@ -564,14 +568,19 @@ def _import_family(role, sym, roles):
     return "%s:%s" % (role, sym)
 
 
-def _import_crash_family(roles, typename, where):
+def _import_crash_family(roles, typename, where, is_merge=False):
     """Same for an exception: by the shape of the commands of the commit on which the importer raised."""
     srcs = [q for q, v in roles.items() if "R-src" in v]
+    if typename == "NoSuchFile" and where.endswith("_path2ie") and srcs:
+        # _rename_item reads the text with (ie.revision, current path): wrong once a parent directory was renamed after that revision
+        return "raised:rename-reads-text-by-current-path-in-last-changed-revision"
     dsts = [q for q, v in roles.items() if "R-dst" in v]
     if any(roles[q] & {"M", "R-dst"} or any(x.startswith(q + "/") and roles[x] & {"M", "R-dst"} for x in roles) for q in srcs):
         return "raised:rename-source-path-reused-in-same-commit"
     if any(x != q and (x.startswith(q + "/")) for q in srcs + dsts for x in roles):
         return "raised:path-below-directory-renamed-in-same-commit"
+    if srcs and is_merge:
+        return "raised:merge-commit-with-renames:%s" % typename
     if srcs:
         return "raised:commit-with-renames:%s" % typename
     return "raised:%s@%s" % (typename, where)
@@ -668,7 +677,18 @@ def _roundtrip(ctx, rng, h, bname, plain, rewrite_tags):
             if diffs:
                 sym, p = diffs[0]
                 cls = _cls_of(d, p)
-                e_problem[mark] = ("export:stream:%s" % _export_family(plain, d, cls, sym, p, roles_by_mark[mark]),
+                fam = None
+                for sym2, p2 in diffs:
+                    # a directory that vanished or appeared: what explains it lies below it
+                    below = sorted(q for q in set(d.old_at) | set(d.new_at) if q.startswith(p2 + "/"))
+                    for q in [p2] + below:
+                        cand = _export_family(plain, d, _cls_of(d, q), sym2, q, roles_by_mark[mark])
+                        if cand != "%s:%s" % (_cls_of(d, q), sym2):
+                            fam = cand
+                            break
+                    if fam:
+                        break
+                e_problem[mark] = ("export:stream:%s" % (fam or _export_family(plain, d, cls, sym, p, roles_by_mark[mark])),
                                    "commit %s (%s): its file commands, applied in order to the parent's tree, give path(s) %r %s w.r.t. the "
                                    "revision's tree (what the revision did to the path: %s)" % (mark.decode(), r.decode(), [x[1] for x in diffs[:4]], sym, cls),
                                    {"revision": r.decode(), "mark": mark.decode(), "commands": cmds_by_mark[mark], "delta": d.classes[:30],
@@ -707,7 +727,8 @@ def _roundtrip(ctx, rng, h, bname, plain, rewrite_tags):
         else:
             roles = roles_by_mark.get(failing, {})
             kinds = sorted({x for v in roles.values() for x in v})
-            key = "import:" + _import_crash_family(roles, e.typename, e.where)
+            is_merge = any(m_ == failing and mg for m_, _f, mg, _fc, _c in commits)
+            key = "import:" + _import_crash_family(roles, e.typename, e.where, is_merge)
             ctx.fail(key, "%scommit %s (commands: %s): %s@%s %s" % (what, failing, kinds, e.typename, e.where, e.text[:1200]),
                      dict(detail, failing_mark=failing and failing.decode(), commands=cmds_by_mark.get(failing),
                           stream_tail=d_[-1200:].decode("latin-1")))
